@@ -48,6 +48,16 @@ CHECKS = {
         text='For power-of-two factors TLC requires identical indices, durations, ratios (bit-identical) and labels and voltage features / band_amp scaled by exactly the factor, and a bit-identical table when fs and both band edges are multiplied by c in {1/8,1/4,1/2,2,4}; the recorded environment outputs (sign pattern, mask, filter length) must coincide, which makes the neurodsp covariance assumption visible.',
         design_ref='6/C10',
         note='scale factors restricted to powers of two as the property states; pairs sampled from the generated corpus.'),
+    'C13': dict(
+        technique=TECH + 'exhaustive small-scope model checking (MC_Tables, mode epoch) with indexed conformance of the real epoch_df, plus trace validation (Trace_Tables) of epoch_df and compute_features_2d(axis=None) against Epoch(Analyze(flattened)) and the per-epoch relabelling rule',
+        text='Epoch assignment by the closing side extremum in ((e-1)L, eL], order, shift and unchanged feature values (fingerprints of float limbs); Partition / exactly-one-epoch are TLC invariants of the model on every small table x epoch length and the real epoch_df agrees on each; recorded axis=None runs (single option set: labels of the flattened analysis; per-epoch list: each epoch re-labelled by the rule on rank codes; repeated call with shared option objects; empty epochs; boundary-coinciding extrema) are judged by TLC.',
+        design_ref='6/C13',
+        note='the flattened reference analysis is the real compute_features on the concatenated signal (itself covered by C01-C07); exhaustive to 8 (thorough 10) samples.'),
+    'C18': dict(
+        technique=TECH + 'exhaustive small-scope model checking (MC_Tables, mode limit) with the real limit_df / limit_signal judged on every table x window, plus trace validation (Trace_Tables) of limit_df, limit_signal, split/drop_samples_df and flatten_dfs on analysis tables',
+        text='LimitOK states bounds (everything entirely inside [start, stop] is returned, nothing entirely outside, order and feature fingerprints preserved, one common offset on reset) rather than one answer; TLC proves them for the model and evaluates them on the real outputs for all small tables x windows on the half-sample grid (either limit None) x reset x centring, and on recorded calls incl. 1-D / 2-D flatten lists.',
+        design_ref='6/C18',
+        note='window limits are on the half-sample grid with fs a power of two (or 1), so start*fs is exact.'),
     'C17': dict(
         technique=TECH + 'exhaustive small-scope model checking (MC_Phase) over every valid cyclepoint placement with the real extrema_interpolated_phase judged on each, plus trace validation (Trace_Phase) on cyclepoints of generated signals',
         text='Phase model in exact quarter-turn rationals (anchors with extrema overriding midpoints, linear advance, wrap only at troughs, NaN outside the span); TLC proves the four statements of C17 for the model on every placement up to the bound and evaluates the same four statements on order-isomorphic rank codes of the real function\'s output for every placement and for recorded calls on generated cyclepoints (any boundary, first_extrema, with/without midpoints).',
